@@ -2,6 +2,7 @@ package checks
 
 import (
 	"fmt"
+	"sort"
 	"sync"
 	"sync/atomic"
 	"time"
@@ -63,6 +64,20 @@ func linModel() porcupine.Model {
 	}
 }
 
+func liveID(ob liveObj) string {
+	switch ob.kind {
+	case "plan":
+		return ob.plan.ID.String()
+	case "block":
+		return ob.block.ID.String()
+	case "checks":
+		return ob.checks.ID.String()
+	case "seq":
+		return ob.seq.ID.String()
+	}
+	return ob.action.ID.String()
+}
+
 func versionOf(s *workflow.State) int64 {
 	if s == nil || s.Start.IsZero() {
 		return 0
@@ -76,7 +91,7 @@ func c13Lin(c *Ctx, idx int) CaseResult {
 	ctx := context.Background()
 	r := gen.Rand(c.Seed, "C13lin", idx)
 	res := CaseResult{Counters: map[string]int{}}
-	kind := []string{"sqlite-mem", "sqlite-file"}[idx%2]
+	kind := []string{"sqlite-mem", "cosmos-fake", "sqlite-file"}[(idx/15)%3]
 	h, err := openVault(ctx, kind, c.Scratch, idx)
 	if err != nil {
 		res.Verdict, res.Note = "inconclusive", "open vault: "+err.Error()
@@ -93,6 +108,13 @@ func c13Lin(c *Ctx, idx int) CaseResult {
 		return res
 	}
 	objs := liveObjects(lp)
+	// which objects get a writer: a PRNG choice over the whole plan, in half of the cases objects of one kind first
+	// (the vaults lock and address per kind: two sequences, two actions of one sequence, two check groups ...)
+	r.Shuffle(len(objs), func(a, b int) { objs[a], objs[b] = objs[b], objs[a] })
+	if r.Intn(2) == 0 {
+		first := []string{"seq", "action", "checks", "block"}[r.Intn(4)]
+		sort.SliceStable(objs, func(a, b int) bool { return objs[a].kind == first && objs[b].kind != first })
+	}
 	// initial version 0: states have zero start
 	start := time.Now()
 	clock := func() int64 { return int64(time.Since(start)) }
@@ -104,11 +126,26 @@ func c13Lin(c *Ctx, idx int) CaseResult {
 	opsPerWriter := 8 + r.Intn(10)
 	var wg sync.WaitGroup
 	var opErr atomic.Value
+	written := map[string]bool{}
+	for _, ob := range objs[:nWriters] {
+		written[liveID(ob)] = true
+	}
 	for w := 0; w < nWriters; w++ {
+		cp, err := h.Vault.Read(ctx, p.ID)
+		if err != nil {
+			res.Verdict, res.Note = "inconclusive", "read: "+err.Error()
+			return res
+		}
+		var mine liveObj
+		for _, o := range liveObjects(cp) {
+			if liveID(o) == liveID(objs[w]) {
+				mine = o
+			}
+		}
 		wg.Add(1)
 		go func(w int) {
 			defer wg.Done()
-			ob := objs[w] // one writer per object
+			ob := mine // one writer per object, each on its own copy of the plan (nothing shared between writers)
 			for k := 0; k < opsPerWriter; k++ {
 				v := next.Add(1)
 				st := &workflow.State{Status: workflow.Running, Start: time.Unix(0, linBase+v).UTC()}
@@ -168,7 +205,10 @@ func c13Lin(c *Ctx, idx int) CaseResult {
 					return
 				}
 				mu.Lock()
-				for _, ob := range liveObjects(got)[:nWriters] {
+				for _, ob := range liveObjects(got) {
+					if !written[liveID(ob)] {
+						continue
+					}
 					var id string
 					var st *workflow.State
 					switch ob.kind {
